@@ -136,7 +136,9 @@ pub fn run(args: &[String]) -> i32 {
         std::thread::sleep(std::time::Duration::from_millis(60)); // late output from the forwarders
         let (finished, no_panic) = c.close(3000);
         if !finished {
-            errors.push(format!("history {h}: session thread still running 3 s after the connection was closed"));
+            errors.push(format!("history {h}: session thread still running 120 s after the connection was closed"));
+            // never run a second debugger in this process beside a live one
+            break;
         }
         if !no_panic {
             errors.push(format!("history {h}: session thread panicked"));
